@@ -74,6 +74,10 @@ def check(run, prog, tier):
     run.trusted_base = ["numpy.tensordot default axes=2 semantics as modelled in qv/ta.py",
                         "linearity of ReducedDensityMatrixPropagator.propagate in the initial state "
                         "(C02-A: every term of the iterate is linear or a state-independent source)"]
+    run.rule("C08-I", "every calculation of the superoperator uses the dense step, dephasing, tensor and basis in force: no elemental step or other result kept from an earlier calculation", minimum=1)
+    from . import memorule
+    memorule.check(run, prog, "C08-I", ['quantarhei.qm.liouvillespace.evolutionsuperoperator.EvolutionSuperOperator'],
+                   "U(t) then belongs to an earlier setting and no longer reproduces direct propagation")
     run.rule("C08-A", "identity start at every initialisation site (TA)", minimum=4)
     run.rule("C08-B", "first interval from propagated basis elements, set/reset paired", minimum=9)
     run.rule("C08-C", "recurrence new = step . previous with the default contraction", minimum=6)
